@@ -2592,9 +2592,12 @@ class op(object):
         for i in  pwl_ineqs:
             mmap[i] = _function()
             for c in pwl_ineqs[i]:
-                mmap[i] = mmap[i] + constraints[0].multiplier[islc[c]]
-            if len(i) == 1 != len(mmap[i]):
-                mmap[i] = sum(mmap[i])
+                mc = constraints[0].multiplier[islc[c]]
+                if len(c) != len(i):
+                    # c is shared by all the components of i: divide 
+                    # its total multiplier equally among them
+                    mc = sum(mc) * (1.0/len(i))
+                mmap[i] = mmap[i] + mc
 
         for e in  equalities:
             mmap[e] = constraints[1].multiplier[eslc[e]]
